@@ -122,6 +122,24 @@ def findMountLoop (path : Path) : List Path → Option Path → Option (Path × 
 def findMount (mounts : List Path) (cwd p : Path) : Option (Path × Path) :=
   findMountLoop (mountKeyPath cwd p) mounts none
 
+/-- NOT the code: the tempting optimisation "the mount table is keyed by mount point, so look
+    the path up, then each of its ancestor directories (`filepath.Dir` repeatedly), deepest
+    first".  Ancestors never end with a separator, so a mount point registered WITH a trailing
+    separator (`/vault/`, what `--mount dir:/vault/` produces) is only ever found for the exact
+    path.  Kept as an executable definition so that `Props` can show that it hands paths below
+    such a mount point to the enclosing mount (`parent_walk_misses_trailing_sep_mount`). -/
+def findMountByParents (mounts : List Path) (cwd p : Path) : Option (Path × Path) :=
+  let key := mountKeyPath cwd p
+  if mounts.contains key then some (key, [47])
+  else
+    let cs := (split key).filter (fun c => !c.isEmpty)
+    let ancestors := (List.range cs.length).reverse.map (fun n => 47 :: joinSep (cs.take n))
+    match ancestors.find? (fun a => mounts.contains a) with
+    | some m =>
+      let rel := trimPrefix key m
+      some (m, if rel.isEmpty then [47] else rel)
+    | none => none
+
 /-! ### Spec: what the property demands of mount selection (component-wise prefixes). -/
 
 /-- non-empty components of a path -/
@@ -242,6 +260,34 @@ def localResolve (base p : Path) : Res := resolvePath base p
 def hostJoin (d name : Path) : Path :=
   if hasSuffixSlash d then d ++ name else d ++ 47 :: name
 
+/-- `os.MkdirTemp`'s split of its name pattern at the LAST `*` (42): `none` when there is no
+    `*` (the generated digits are then appended) -/
+def patternParts : Path → Option (Path × Path)
+  | [] => none
+  | c :: cs =>
+    match patternParts cs with
+    | some (pre, suf) => some (c :: pre, suf)
+    | none => if c = 42 then some ([], cs) else none
+
+/-- the directory-entry name `os.MkdirTemp(dir, pattern)` makes from the caller's PATTERN and
+    the digits `rnd` it generated: a pattern that contains a path separator is refused
+    (`errPatternHasSeparator`) — the pattern is the one script-controlled string of the local
+    filesystem that is NOT resolved, so this refusal is what keeps it a directory-entry name -/
+def tempName (pattern rnd : Path) : Option Path :=
+  if pattern.contains 47 then none
+  else match patternParts pattern with
+    | some (pre, suf) => some (pre ++ rnd ++ suf)
+    | none => some (pattern ++ rnd)
+
+/-- NOT the code: the name built from the pattern WITHOUT the separator test and joined to the
+    resolved directory with `filepath.Join` ("make the directory ourselves, with our own mode").
+    Kept as an executable definition so that `Props` can show that the pattern then leads out of
+    the base (`pattern_join_escapes`). -/
+def tempPathJoined (d pattern rnd : Path) : Path :=
+  match patternParts pattern with
+  | some (pre, suf) => join2 d (pre ++ rnd ++ suf)
+  | none => join2 d (pattern ++ rnd)
+
 /-- how a caller spells a path argument -/
 inductive LArg where
   | lit (p : Path)                   -- a string of the caller's own
@@ -263,6 +309,9 @@ inductive LOp where
   | access2 (a b : LArg)
   /-- MkdirTemp(dir, pattern); `name` is the name the operating system generated -/
   | mkdirTemp (dir : LArg) (name : Path)
+  /-- MkdirTemp(dir, pattern) with the caller's PATTERN (arbitrary bytes); `rnd` are the digits
+      the operating system generated -/
+  | mkdirTempP (dir : LArg) (pattern rnd : Path)
   /-- WalkDir(root, fn); `rels` are the entries found below the root, each as the list of
       directory-entry names leading to it (what the host's directory tree contains) -/
   | walk (root : LArg) (rels : List (List Path))
@@ -304,6 +353,13 @@ def lstep (base : Path) (st : LState) : LOp → LState
     match mkdirTempDir base (dir.eval st.handed) with
     | .ok d => { handed := st.handed ++ [hostJoin d name], touched := st.touched ++ [hostJoin d name] }
     | .invalid => st
+  | .mkdirTempP dir pattern rnd =>
+    match tempName pattern rnd with
+    | none => st
+    | some name =>
+      match mkdirTempDir base (dir.eval st.handed) with
+      | .ok d => { handed := st.handed ++ [hostJoin d name], touched := st.touched ++ [hostJoin d name] }
+      | .invalid => st
   | .walk root rels =>
     match localResolve base (root.eval st.handed) with
     | .ok r => { handed := st.handed ++ walkPaths r rels, touched := st.touched ++ walkPaths r rels }
